@@ -347,7 +347,8 @@ def oracle(case, ob):
                 out.append(('decorator:attempt-starts-with-uncommitted-writes', 'attempt %d started with %d pending writes of an earlier attempt' % (e[1], e[2])))
         last = n - 1
         e, from_commit = effective(st, last, cf)
-        poisoned = bool(st[last][0]) if last < len(st) else False
+        if last >= len(st): st = list(st) + [[0, -1]] * (last + 1 - len(st))     # more executions than the stream describes: they finish normally
+        poisoned = bool(st[last][0])
         if e >= 0 and retryable(e) and n < s['retry'] + 1:
             out.append(('decorator:no-rerun-after-retryable-exception', 'attempt %d ended with retryable %d but only %d of %d attempts ran' % (last, e, n, s['retry'] + 1)))
         may_commit = (not poisoned) and (st[last][1] < 0 or allowed(st[last][1]))
